@@ -202,6 +202,12 @@ class ConcCx(BaseCx):
         BaseCx.__init__(self)
         self.values = values
         self.rtol = rtol
+        # comparisons are relative to max(floor, |a|, |b|); the floor is 1 unless the replayed candidate states the
+        # magnitude of its data (micro-scale stress candidates: a deviation of 1e-9 is 100 % there)
+        try:
+            self.floor = float(Fraction(values.get('__floor__', 1)))
+        except Exception:
+            self.floor = 1.0
         self.failed = []
         self.checked = 0
         self.used = set()
@@ -252,7 +258,7 @@ class ConcCx(BaseCx):
         return bool(cond)
 
     def _scale(self, a, b):
-        return max(1.0, abs(a), abs(b))
+        return max(self.floor, abs(a), abs(b))
 
     def _eq_num(self, name, a, b):
         self.checked += 1
